@@ -259,6 +259,25 @@ def opScopes (a : List String) : String :=
 (`scopes-wf`): starts at (0,1), ends at (48,49), chained, never backwards, valid positions, n scopes -/
 def specScopes (a : List String) : Option String := some s!"scopes-wf:{a.getD 0 "0"}"
 
+/-- tallies of the model's full enumeration (they do not depend on the entry order) -/
+def opC11 (a : List String) : String :=
+  match parseIter (a.drop 1) with
+  | none => "bad-args"
+  | some q =>
+    let ev : Evaluator UInt32 := Evaluator.new q.board q.ranges
+    match ev.intoIter with
+    | .ok s =>
+      match drainFuel f32Ops 100000000 s [] with
+      | .ok (sds, _) =>
+        let n := q.ranges.length
+        let rows := (List.range n).map fun p =>
+          (List.range' 1 n).map fun k =>
+            sds.countP fun sd => (sd.players.map (·.win))[p]? == some true && sd.players.countP (·.win) == k
+        let t := if n == 0 then "-" else ";".intercalate (rows.map fun r => ",".intercalate (r.map toString))
+        s!"ok suits=1 players=1 pot=1 n={sds.length} t={t}"
+      | _ => "panic"
+    | _ => "panic"
+
 def textOp (op : String) (a : List String) : Option String :=
   match op with
   | "parse_token" => some (opParseToken a)
@@ -267,6 +286,7 @@ def textOp (op : String) (a : List String) : Option String :=
   | "range_ops" => some (opRangeOps a)
   | "canon" => some (opCanon a)
   | "c15" => some (opC15 a)
+  | "c11" => some (opC11 a)
   | "scopes" => some (opScopes a)
   | "scopes_e2e" => some "ok e2e=1"
   | _ => none
@@ -281,6 +301,7 @@ def textSpec (op : String) (a : List String) : Option String :=
   | "range_ops" => specRangeOps a
   | "canon" => specCanon a
   | "c15" => some "all:nopanic;;has:inter=1 threads=1 "
+  | "c11" => some "all:nopanic;;has:suits=1 players=1 pot=1 "
   | "scopes" => specScopes a
   | "scopes_e2e" => some "all:nopanic;;has:e2e=1 "
   | _ => none
